@@ -1,3 +1,4 @@
 import MpfVerif.DriverLoop
-/-! Driver of the C05 model (stub until the model exists): answers bad-op to everything. -/
-def main : IO UInt32 := MpfVerif.runDriver (fun (s : Unit) _ => (s, "bad-op")) ()
+import MpfVerif.Model.BallLedger
+/-! Driver of the ball-ledger monitor (C05 shares the model of C04). -/
+def main : IO UInt32 := MpfVerif.runDriver MpfVerif.BallLedger.driverStep {}
